@@ -252,6 +252,10 @@ func cmdCheck(args []string) int {
 		fnames = append(fnames, pf.Fn)
 		nInstr += r.Instrs
 	}
+	skipNames = undec
+	if os.Getenv("HVC_TRY_UNDECIDED") != "" {
+		skipNames = nil
+	}
 	res := solveAll(rs, timeout, *tier == "thorough", runtime.NumCPU())
 	// vacuity: preconditions + base facts must be satisfiable
 	vac := map[string]string{}
